@@ -166,8 +166,8 @@ fn wild_help(n: Node, u: &mut Un) -> Node {
     match n {
         Node::Named(mut x) => {
             x.help = maybe_doc(u, 150);
-            if u.chance(30) {
-                x.envs.push(format!("BPAF_VERIF_UNSET_{}", x.id));
+            if u.chance(50) {
+                x.envs.push(format!("BPAF_VERIF_W{}", x.id));
             }
             Node::Named(x)
         }
@@ -382,10 +382,90 @@ pub fn gen_wild_level(u: &mut Un, names: &mut Names, depth: usize) -> Level {
     } else {
         Node::Seq(fields)
     };
-    Level {
+    let mut level = Level {
         body,
         info: gen_wild_info(u, names, depth),
+    };
+    if depth == 0 && u.chance(45) {
+        make_ambiguous(&mut level, u);
     }
+    level
+}
+
+/// give an argument the short name of a flag (or the other way round): clusters that contain the
+/// letter are then ambiguous, which must be reported as an error
+pub fn make_ambiguous(level: &mut Level, u: &mut Un) {
+    let (flag_short, arg_id) = {
+        let leaves = level.body.named_leaves(true);
+        let flags: Vec<char> = leaves
+            .iter()
+            .filter(|l| !l.is_arg())
+            .filter_map(|l| l.shorts.first().copied())
+            .collect();
+        let args: Vec<usize> = leaves.iter().filter(|l| l.is_arg()).map(|l| l.id).collect();
+        if flags.is_empty() || args.is_empty() {
+            return;
+        }
+        (*u.pick(&flags), *u.pick(&args))
+    };
+    fn go(n: &mut Node, id: usize, c: char) {
+        match n {
+            Node::Named(x) => {
+                if x.id == id && !x.shorts.contains(&c) {
+                    x.shorts.push(c);
+                }
+            }
+            Node::Cmd(cmd) => go(&mut cmd.level.body, id, c),
+            Node::Pos(_) | Node::Pure(_) | Node::Fail(_) => {}
+            Node::Seq(xs) | Node::Alt(xs) | Node::Adjacent(xs) => {
+                for x in xs {
+                    go(x, id, c);
+                }
+            }
+            Node::Optional { n, .. }
+            | Node::Many { n, .. }
+            | Node::Some { n, .. }
+            | Node::Collect { n, .. }
+            | Node::Count(n)
+            | Node::Last(n)
+            | Node::Fallback { n, .. }
+            | Node::FallbackWith { n, .. }
+            | Node::Guard { n, .. }
+            | Node::Parse { n, .. }
+            | Node::Map(n)
+            | Node::Hide(n)
+            | Node::HideUsage(n)
+            | Node::CustomUsage(n, _)
+            | Node::GroupHelp(n, _)
+            | Node::WithGroupHelp(n, _)
+            | Node::Complete { n, .. }
+            | Node::CompleteShell(n, _)
+            | Node::Boxed(n) => go(n, id, c),
+        }
+    }
+    go(&mut level.body, arg_id, flag_short);
+}
+
+/// declared environment variables of a definition
+pub fn declared_envs(level: &Level) -> Vec<String> {
+    level
+        .body
+        .named_leaves(true)
+        .iter()
+        .flat_map(|l| l.envs.clone())
+        .collect()
+}
+
+/// an environment for one step: some of the declared variables set
+pub fn gen_env(u: &mut Un, declared: &[String]) -> Vec<(String, Vec<u8>)> {
+    let mut out = Vec::new();
+    for d in declared {
+        if u.chance(110) {
+            let v: &[u8] = *u.pick(&[&b"1"[..], &b""[..], &b"x y"[..], &b"1001"[..], &b"n\xff"[..], &b"bad"[..]]);
+            out.push((d.clone(), v.to_vec()));
+        }
+    }
+    out
 }
 
 /// argument vectors of arbitrary byte strings, biased towards the definition's own names
